@@ -183,6 +183,7 @@ func c10LendGen1Phase(e *c08Env, rec *ev.Rec, rounds int) {
 		coll, debt                 string
 	}
 	ledgers := map[uint64]*led{}
+	seizedSince := map[string]*big.Int{} // collateral taken into custody by the auctions opened since custody was last back at its base
 	base := custody()
 	if len(e.gen1LendAuctions()) != 0 {
 		return
@@ -197,11 +198,18 @@ func c10LendGen1Phase(e *c08Env, rec *ev.Rec, rounds int) {
 		for _, id := range e.u.Order {
 			d := e.u.Assets[id].Denom
 			if now[d].Cmp(base[d]) != 0 {
-				rec.Violate("C10/custody/gen1-lend/remainder-with-no-live-auction", fmt.Sprintf("no generation-1 lend auction is live but the auction module holds %s%s more than before the first one opened", bigSub(now[d], base[d]), d),
+				// signature of the recorded finding (the bonus share of the unsold part is not returned): the
+				// remainder is a small fraction (at most the bonus rate, 5 %) of what the last auction took into custody
+				lab := "C10/custody/gen1-lend/remainder-with-no-live-auction"
+				if rem, sz := bigSub(now[d], base[d]), seizedSince[d]; rem.Sign() > 0 && sz != nil && sz.Sign() > 0 && new(big.Int).Mul(new(big.Int).Sub(rem, big.NewInt(2)), big.NewInt(100)).Cmp(new(big.Int).Mul(sz, big.NewInt(6))) <= 0 { // two units of rounding
+					lab += "/within-bonus-share-of-last-auction"
+				}
+				rec.Violate(lab, fmt.Sprintf("no generation-1 lend auction is live but the auction module holds %s%s more than before the first one opened", bigSub(now[d], base[d]), d),
 					map[string]interface{}{"denom": d, "held": now[d].String(), "held_before": base[d].String(), "after": ctxDesc, "last_auction_moved_into_custody": l.seized.String(), "last_auction_bidders_received": l.recv.String(), "last_auction_bidders_paid": l.paid.String(), "last_auction_target": l.target.String(), "history_tail": e.tail(8)})
 				base[d] = now[d] // report each remainder once
 			}
 		}
+		seizedSince = map[string]*big.Int{}
 	}
 	for round := 0; round < rounds && !e.panicked; round++ {
 		// a fresh position close to its bound every other round, so that the phase does not depend on what the
@@ -242,6 +250,10 @@ func c10LendGen1Phase(e *c08Env, rec *ev.Rec, rounds int) {
 			}
 			d := a.OutflowTokenInitAmount.Denom
 			ledgers[a.AuctionId] = &led{target: a.InflowTokenTargetAmount.Amount.BigInt(), seized: bigSub(after[d], before[d]), paid: new(big.Int), recv: new(big.Int), coll: d, debt: a.InflowTokenTargetAmount.Denom}
+			if seizedSince[d] == nil {
+				seizedSince[d] = new(big.Int)
+			}
+			seizedSince[d].Add(seizedSince[d], ledgers[a.AuctionId].seized)
 			rec.Count("auctions_opened_gen1_lend", 1)
 		}
 		// bids until the auctions are gone (or nobody can bid any more)
